@@ -76,20 +76,30 @@ def run(ctx):
         case = byid[ev["id"]]
         ln = case["lines"][ev["li"]]
         o = ev["o"]
-        forwarded = o["invalid"] == 0
+        moved = bool(o["black"] or o["unroutable"] or o["agg"] or any(any(v) for v in o["rt"]))
+        forwarded = moved and o["invalid"] == 0
         k = ln["line"]["key"]
         cls = "nf=%d key=%s%s;%s val=%s ts=%s" % (ln["line"]["nf"], "." if k["lead"] else "", ".".join(k["nodes"]), k["app"],
                                                 ln["line"]["val"], ln["line"]["ts"])
         lv = "legacy=%s m20=%s" % (case["lvl"] or "(default)", case["lvm"] or "(default)")
-        if forwarded not in ln["allowed"]:
+        if o["in"] != 1:
+            sig = "c02 inbound-counter"
+            what = "the inbound counter moved by %d for one line (%s, %s)" % (o["in"], cls, lv)
+        elif not moved and o["invalid"] == 0:
+            sig = "c02 line-vanished table=%s" % case["fam"]
+            what = "a line (%s, %s) was neither forwarded nor counted invalid: %s" % (cls, lv, json.dumps(o))
+        elif moved and o["invalid"] != 0:
+            sig = "c02 rejected-line-accounting table=%s" % case["fam"]
+            what = "a line counted invalid (%s, %s) also moved other counters/hand-overs %s" % (cls, lv, json.dumps(o))
+        elif forwarded not in ln["allowed"]:
             sig = "c02 %s %s %s" % ("forwarded-invalid" if forwarded else "rejected-valid", lv, cls)
             what = "line class %s at %s was %s; allowed verdicts %s" % (cls, lv, "forwarded" if forwarded else "rejected", ln["allowed"])
-        elif o["in"] != 1 or (not forwarded and (o["invalid"] != 1 or o["black"] or o["unroutable"] or o["agg"] or any(any(v) for v in o["rt"]))):
-            sig = "c02 rejected-line-accounting table=%s" % case["fam"]
-            what = "a rejected line (%s, %s) moved counters/hand-overs %s" % (cls, lv, json.dumps(o))
         elif forwarded:
             sig = "c02 forwarded-line-routing table=%s" % case["fam"]
             what = "an accepted line (%s, %s) was not handled as table shape %s demands: %s bad=%s" % (cls, lv, case["fam"], json.dumps(o), ev["bad"])
+        elif o["invalid"] != 1:
+            sig = "c02 invalid-counter"
+            what = "a rejected line (%s, %s) moved the invalid counter by %d" % (cls, lv, o["invalid"])
         else:
             sig = "c02 bad-metrics-record %s" % ("nf3" if ln["line"]["nf"] == 3 else "unparsable")
             what = "rejected line (%s, %s): bad-metrics records %s do not show it under its name with its text and a true reason" % (
@@ -108,21 +118,21 @@ def run(ctx):
         nd += 1
         case = byid[e["id"]]
         ln = case["lines"][e["li"]]
-        if e["o"]["invalid"]:
+        if ln["allowed"] == [False]:
             rejected += 1
-        else:
+        elif ln["allowed"] == [True]:
             forwarded += 1
         if ln["allowed"] != [True]:
             distinct.add((json.dumps(ln["line"], sort_keys=True), eff(case["lvl"]), eff(case["lvm"])))
-    if not crashed and (rejected == 0 or forwarded == 0):
-        raise Machinery("vacuous coverage: %d rejected / %d forwarded lines" % (rejected, forwarded))
+    if not crashed and not ctx.violations and (rejected == 0 or forwarded == 0):
+        raise Machinery("vacuous coverage: %d must-reject / %d must-forward lines" % (rejected, forwarded))
     cov = ctx.cov
     cov["evaluations"] = nd
     cov["dispatches_accepted_by_tlc"] = nacc
     cov["distinct_nontrivial"] = len(distinct)
     cov["line_classes"] = len(lines)
-    cov["observed_rejected"] = rejected
-    cov["observed_forwarded"] = forwarded
+    cov["lines_that_must_be_rejected"] = rejected
+    cov["lines_that_must_be_forwarded"] = forwarded
     cov["rule"] = ("line classes = TLC enumeration (ValidateGen) of keys [leading dot, <= %d nodes of 10 kinds, 13 tag-appendix kinds] x "
                    "value/timestamp classes x field counts 0..5, each with the verdict set of Validate.tla per level pair; every class "
                    "concretised to bytes by construction (seeded) and dispatched into a real table created from a configuration text "
